@@ -4,6 +4,8 @@ package main
 // witnesses of repaired findings and boundary scenarios a random run might miss.
 
 import (
+	"encoding/binary"
+
 	tmclient "github.com/teleport-network/teleport/x/xibc/clients/light-clients/tendermint/types"
 	clienttypes "github.com/teleport-network/teleport/x/xibc/core/client/types"
 )
@@ -16,17 +18,17 @@ type scen struct {
 	desc string
 }
 
-func (e *env) scenario(id int, desc string, chain string, latest uint64, lv level, trusting, drift int64, delay uint64, next []ValP) *scen {
+func (e *env) scenario(id int, desc string, chain string, latest uint64, lv level, trusting, drift int64, delay uint64, next []ValP, inject ...InjectJ) *scen {
 	t0 := baseTime + 1000*sec
 	spec := Spec{ID: id, Client: ClientSpec{ChainID: chain, TLNum: lv.num, TLDen: lv.den, Trusting: trusting, Unbonding: 2 * trusting,
 		Drift: drift, Latest: HeightJ{clienttypes.ParseChainID(chain), latest}, Delay: delay, ConsTime: t0, ConsRoot: hx(e.fx.root),
-		ConsNVH: hx(hashOf(next)), CreateNow: t0 + 10*sec}}
+		ConsNVH: hx(hashOf(next)), CreateNow: t0 + 10*sec, Inject: inject}}
 	return &scen{e: e, run: e.start(spec), t0: t0, h0: int64(latest), desc: desc}
 }
 
-// update: header for height h with time t (ns offsets from t0), own set vals (all sign unless listed in absent), trusted
-// height th with trusted set tvals, at clock now.
-func (s *scen) update(name string, chain string, h int64, t int64, vals, next, tvals []ValP, th clienttypes.Height, now int64, absent ...int) {
+// hp: parameters of a header for height h with time t (ns offset from t0), own set vals (all sign unless listed in absent),
+// trusted height th with trusted set tvals.
+func (s *scen) hp(chain string, h int64, t int64, vals, next, tvals []ValP, th clienttypes.Height, absent ...int) *HP {
 	p := defaultHP(chain, h, s.t0+t, vals)
 	p.NextValsHash = hashOf(next)
 	p.AppHash = s.e.fx.root
@@ -41,6 +43,11 @@ func (s *scen) update(name string, chain string, h int64, t int64, vals, next, t
 		}
 		p.Sigs = append(p.Sigs, sg)
 	}
+	return p
+}
+
+// submit: builds, signs and submits the header at clock now (ns offset from t0).
+func (s *scen) submit(name string, now int64, p *HP) {
 	hdr := build(p)
 	bz, err := s.e.cdc.Marshal(hdr)
 	if err != nil {
@@ -49,8 +56,17 @@ func (s *scen) update(name string, chain string, h int64, t int64, vals, next, t
 	s.run.step(Step{Kind: "update", Now: s.t0 + now, Header: hx(bz), Desc: "corpus:" + s.desc + ":" + name})
 }
 
+func (s *scen) update(name string, chain string, h int64, t int64, vals, next, tvals []ValP, th clienttypes.Height, now int64, absent ...int) {
+	s.submit(name, now, s.hp(chain, h, t, vals, next, tvals, th, absent...))
+}
+
 func (s *scen) verify(name string, h clienttypes.Height, now int64) {
-	s.run.step(Step{Kind: "verify", Now: s.t0 + now, VHeight: hj(h), Proof: 0, Seq: fxSeq, Value: hx(s.e.fx.commit),
+	s.verifyX(name, h, now, false, 0, s.e.fx.commit)
+}
+
+// verifyX: proof = index into the proof fixtures (0 commitment, 1 acknowledgement, 2 undecodable, 3 empty, -1 nil)
+func (s *scen) verifyX(name string, h clienttypes.Height, now int64, ack bool, proof int, value []byte) {
+	s.run.step(Step{Kind: "verify", Now: s.t0 + now, VHeight: hj(h), Ack: ack, Proof: proof, Seq: fxSeq, Value: hx(value),
 		Desc: "corpus:" + s.desc + ":" + name})
 }
 
@@ -119,6 +135,21 @@ func corpus(e *env) []Result {
 		s.update("adjacent-all", "testchain", 11, 5*sec, three, three, three, hh(0, 10), 31*sec)
 		out = append(out, s.run.res)
 	}
+	// E2. a configured trust level other than the default reaches light.Verify: level 2/3, three equal trusted validators,
+	//     two of them (exactly 2/3) in the new set => refused; all three => accepted.  Level 1/1: never enough.
+	{
+		three := vset(1, 1, 1)
+		s := e.scenario(100015, "trust-level-two-thirds", "testchain", 10, level{2, 3}, 600*sec, 10*sec, 0, three)
+		two := []ValP{{Key: 0, Power: 1}, {Key: 1, Power: 1}, {Key: 3, Power: 1}}
+		s.update("skip-exactly-2/3-of-trusted", "testchain", 14, 20*sec, two, two, three, hh(0, 10), 30*sec)
+		four := []ValP{{Key: 0, Power: 1}, {Key: 1, Power: 1}, {Key: 2, Power: 1}, {Key: 3, Power: 1}}
+		s.update("skip-3/3-of-trusted", "testchain", 14, 20*sec, four, four, three, hh(0, 10), 31*sec)
+		out = append(out, s.run.res)
+		s = e.scenario(100016, "trust-level-one", "testchain", 10, level{1, 1}, 600*sec, 10*sec, 0, three)
+		s.update("skip-all-of-trusted", "testchain", 14, 20*sec, three, three, three, hh(0, 10), 30*sec)
+		s.update("adjacent-all", "testchain", 11, 5*sec, three, three, three, hh(0, 10), 31*sec)
+		out = append(out, s.run.res)
+	}
 	// F. trust level 0x5555555555555555/0xFFFFFFFFFFFFFFFF (= 1/3, passes ValidateTrustLevel): int64(denominator) = -1
 	//    (Refuted/C07_refuted.v: C07_trust_level_int64_refuted)
 	{
@@ -128,6 +159,152 @@ func corpus(e *env) []Result {
 		s.update("zero-power-trusted-signer-only", "testchain", 14, 20*sec, own, own, trusted, hh(0, 10), 30*sec)
 		out = append(out, s.run.res)
 	}
+	// G. revisions: an update stays within the revision of its trusted height.  The headers are well formed and properly
+	//    signed for the chain id of ANOTHER revision of the same chain, with a revision height above the trusted one, so
+	//    that only the revision comparison of checkValidity stands between them and light.Verify.
+	{
+		s := e.scenario(100006, "revisions", "gaia-2", 10, third, 600*sec, 10*sec, 0, one)
+		s.update("next-revision-skip", "gaia-3", 14, 20*sec, one, one, one, hh(2, 10), 30*sec)
+		s.update("next-revision-adjacent", "gaia-3", 11, 20*sec, one, one, one, hh(2, 10), 31*sec)
+		s.update("previous-revision-skip", "gaia-1", 14, 20*sec, one, one, one, hh(2, 10), 32*sec)
+		s.update("previous-revision-adjacent", "gaia-1", 11, 20*sec, one, one, one, hh(2, 10), 33*sec)
+		s.update("far-revision-skip", "gaia-18446744073709551615", 14, 20*sec, one, one, one, hh(2, 10), 34*sec)
+		s.update("trusted-height-of-next-revision", "gaia-3", 14, 20*sec, one, one, one, hh(3, 10), 35*sec)
+		s.update("trusted-height-of-previous-revision", "gaia-2", 14, 20*sec, one, one, one, hh(1, 10), 36*sec)
+		s.update("same-revision-skip", "gaia-2", 14, 20*sec, one, one, one, hh(2, 10), 37*sec)
+		s.update("next-revision-after-update", "gaia-3", 16, 25*sec, one, one, one, hh(2, 14), 38*sec)
+		s.update("same-revision-adjacent", "gaia-2", 15, 22*sec, one, one, one, hh(2, 14), 39*sec)
+		out = append(out, s.run.res)
+	}
+	// H. a second header accepted for an already stored height replaces time / app hash / next-validators hash AND the
+	//    processing time; the delay period is measured from the processing of the header that is stored
+	{
+		s := e.scenario(100007, "replace-stored-height", "testchain", 10, third, 2000*sec, 10*sec, uint64(60*sec), one)
+		s.update("first-12", "testchain", 12, 15*sec, one, one, one, hh(0, 10), 20*sec)
+		s.verify("12-one-ns-before-delay", hh(0, 12), 80*sec-1)
+		s.verify("12-exactly-at-delay", hh(0, 12), 80*sec)
+		s.update("second-12-other-time", "testchain", 12, 16*sec, one, one, one, hh(0, 10), 200*sec)
+		s.verify("12-delay-restarted-refused", hh(0, 12), 230*sec)
+		s.verify("12-one-ns-before-restarted-delay", hh(0, 12), 260*sec-1)
+		s.verify("12-at-restarted-delay", hh(0, 12), 260*sec)
+		p := s.hp("testchain", 12, 17*sec, one, one, one, hh(0, 10))
+		p.AppHash = h32("another app hash")
+		s.submit("third-12-other-app-hash", 300*sec, p)
+		s.verify("12-proof-against-replaced-root", hh(0, 12), 400*sec)
+		s.submit("third-12-resubmitted", 500*sec, p)
+		s.update("replace-latest-14", "testchain", 14, 30*sec, one, one, one, hh(0, 12), 510*sec)
+		s.update("replace-latest-14-again", "testchain", 14, 31*sec, one, one, one, hh(0, 12), 520*sec)
+		s.update("replace-initial-10-via-older-trusted", "testchain", 12, 18*sec, one, one, one, hh(0, 10), 530*sec)
+		out = append(out, s.run.res)
+	}
+	// I. only checkTrustedHeader stands between the client and a header that brings its own "trusted" validators:
+	//    set {5,6} signs a header whose own set and claimed trusted set are both {5,6}
+	{
+		attackers := []ValP{{Key: 5, Power: 1}, {Key: 6, Power: 1}}
+		s := e.scenario(100008, "foreign-trusted-set", "testchain", 10, third, 600*sec, 10*sec, 0, one)
+		s.update("skip-own-and-trusted-foreign", "testchain", 14, 20*sec, attackers, attackers, attackers, hh(0, 10), 30*sec)
+		s.update("adjacent-own-and-trusted-foreign", "testchain", 11, 20*sec, attackers, attackers, attackers, hh(0, 10), 31*sec)
+		// ... the stored next set supplied as trusted set, the header's own set foreign: adjacent => own set must BE the
+		// stored next set; skipping => more than the trust level of the trusted set must have signed
+		s.update("adjacent-own-foreign", "testchain", 11, 20*sec, attackers, attackers, one, hh(0, 10), 32*sec)
+		s.update("skip-own-foreign", "testchain", 14, 20*sec, attackers, attackers, one, hh(0, 10), 33*sec)
+		// trusted set = stored next set plus a zero-power member / with another power: other hash
+		s.update("skip-trusted-padded", "testchain", 14, 20*sec, one, one, []ValP{{Key: 0, Power: 1}, {Key: 5, Power: 0}}, hh(0, 10), 34*sec)
+		s.update("skip-trusted-other-power", "testchain", 14, 20*sec, one, one, vset(2), hh(0, 10), 35*sec)
+		s.update("skip-genuine", "testchain", 14, 20*sec, one, attackers, one, hh(0, 10), 36*sec)
+		// the set stored at 10 is no longer the one to trust at 14
+		s.update("skip-trusted-set-of-older-height", "testchain", 18, 25*sec, one, one, one, hh(0, 14), 40*sec)
+		s.update("skip-trusted-set-of-14", "testchain", 18, 25*sec, attackers, attackers, attackers, hh(0, 14), 41*sec)
+		out = append(out, s.run.res)
+	}
+	// K. time boundaries of light.Verify as fed by checkValidity: header time vs trusted time, vs now + drift; trusting
+	//    period of a trusted state that is NOT the latest one
+	{
+		s := e.scenario(100009, "time-boundaries", "testchain", 10, third, 300*sec, 10*sec, 0, one)
+		s.update("time-equals-trusted-time", "testchain", 12, 0, one, one, one, hh(0, 10), 20*sec)
+		s.update("time-one-ns-after-trusted-time", "testchain", 12, 1, one, one, one, hh(0, 10), 21*sec)
+		s.update("time-at-now-plus-drift", "testchain", 16, 60*sec, one, one, one, hh(0, 12), 50*sec)
+		s.update("time-one-ns-before-now-plus-drift", "testchain", 16, 60*sec-1, one, one, one, hh(0, 12), 50*sec)
+		s.update("backfill-time-before-trusted-time", "testchain", 14, 1, one, one, one, hh(0, 12), 51*sec)
+		s.update("trusted-10-one-ns-before-expiry", "testchain", 11, 1, one, one, one, hh(0, 10), 300*sec-1)
+		s.update("trusted-10-expired-latest-fresh", "testchain", 11, 2, one, one, one, hh(0, 10), 300*sec)
+		s.update("trusted-12-expired-by-one-ns", "testchain", 13, 2, one, one, one, hh(0, 12), 300*sec+1)
+		s.update("trusted-16-still-fresh", "testchain", 17, 61*sec, one, one, one, hh(0, 16), 300*sec+1)
+		out = append(out, s.run.res)
+	}
+	// L. the gates of VerifyPacketCommitment/Acknowledgement one by one (client created at +10s, delay 60s)
+	{
+		s := e.scenario(100010, "verify-gates", "testchain", 10, third, 2000*sec, 10*sec, uint64(60*sec), one)
+		s.verifyX("one-ns-before-delay", hh(0, 10), 70*sec-1, false, 0, e.fx.commit)
+		s.verifyX("exactly-at-delay", hh(0, 10), 70*sec, false, 0, e.fx.commit)
+		s.verifyX("ack-exactly-at-delay", hh(0, 10), 70*sec, true, 1, e.fx.ack)
+		s.verifyX("ack-one-ns-before-delay", hh(0, 10), 70*sec-1, true, 1, e.fx.ack)
+		s.verifyX("commitment-proof-for-ack", hh(0, 10), 80*sec, true, 0, e.fx.ack)
+		s.verifyX("ack-proof-for-commitment", hh(0, 10), 80*sec, false, 1, e.fx.commit)
+		s.verifyX("other-value", hh(0, 10), 80*sec, false, 0, e.fx.ack)
+		s.verifyX("nil-proof", hh(0, 10), 80*sec, false, -1, e.fx.commit)
+		s.verifyX("empty-proof", hh(0, 10), 80*sec, false, 3, e.fx.commit)
+		s.verifyX("undecodable-proof", hh(0, 10), 80*sec, false, 2, e.fx.commit)
+		s.verifyX("above-latest", hh(0, 11), 80*sec, false, 0, e.fx.commit)
+		s.verifyX("next-revision", hh(1, 10), 80*sec, false, 0, e.fx.commit)
+		p := s.hp("testchain", 14, 20*sec, one, one, one, hh(0, 10))
+		p.AppHash = h32("another app hash")
+		s.submit("14-other-app-hash", 90*sec, p)
+		s.verifyX("14-root-does-not-match", hh(0, 14), 200*sec, false, 0, e.fx.commit)
+		s.verifyX("10-still-honoured", hh(0, 10), 200*sec, false, 0, e.fx.commit)
+		s.update("12-backfilled", "testchain", 12, 15*sec, one, one, one, hh(0, 10), 210*sec)
+		s.verifyX("12-before-its-own-delay", hh(0, 12), 270*sec-1, false, 0, e.fx.commit)
+		s.verifyX("12-after-its-own-delay", hh(0, 12), 270*sec, false, 0, e.fx.commit)
+		out = append(out, s.run.res)
+	}
+	// M. stores that no history of the unchanged code produces (entries written directly after CreateClient): every gate
+	//    must hold on its own
+	{
+		create := uint64(baseTime + 1010*sec)
+		pt := hx(sdkUint64(create))
+		root, nvh := hx(e.fx.root), hx(hashOf(one))
+		t0 := baseTime + 1000*sec
+		// consensus states with full metadata ABOVE the latest height (same and next revision)
+		s := e.scenario(100011, "state-above-latest", "gaia-2", 10, third, 600*sec, 10*sec, 0, one,
+			InjectJ{Height: HeightJ{2, 20}, Cons: true, Time: t0 + 5*sec, Root: root, NVH: nvh, PT: pt, Iter: true},
+			InjectJ{Height: HeightJ{3, 5}, Cons: true, Time: t0 + 5*sec, Root: root, NVH: nvh, PT: pt, Iter: true})
+		s.verify("latest", hh(2, 10), 20*sec)
+		s.verify("above-latest-same-revision", hh(2, 20), 20*sec)
+		s.verify("above-latest-next-revision", hh(3, 5), 20*sec)
+		s.update("trusted-above-latest", "gaia-2", 22, 20*sec, one, one, one, hh(2, 20), 30*sec)
+		s.verify("20-now-below-latest", hh(2, 20), 31*sec)
+		s.update("next-revision-trusted-there", "gaia-3", 7, 20*sec, one, one, one, hh(3, 5), 32*sec)
+		out = append(out, s.run.res)
+		// consensus state without processed time / with a processed time that is not 8 bytes
+		s = e.scenario(100012, "state-without-metadata", "testchain", 10, third, 600*sec, 10*sec, 0, one,
+			InjectJ{Height: HeightJ{0, 7}, Cons: true, Time: t0 - 5*sec, Root: root, NVH: nvh},
+			InjectJ{Height: HeightJ{0, 8}, Cons: true, Time: t0 - 4*sec, Root: root, NVH: nvh, PT: "0102"},
+			InjectJ{Height: HeightJ{0, 9}, Cons: false, PT: pt})
+		s.verify("no-processed-time", hh(0, 7), 20*sec)
+		s.verify("short-processed-time", hh(0, 8), 20*sec)
+		s.verify("processed-time-without-state", hh(0, 9), 20*sec)
+		s.update("trusted-without-metadata", "testchain", 9, -3*sec, one, one, one, hh(0, 7), 30*sec)
+		s.verify("9-now-stored", hh(0, 9), 31*sec)
+		out = append(out, s.run.res)
+		// iteration key without consensus state: the pruning step fails, nothing is accepted
+		s = e.scenario(100013, "iteration-key-without-state", "testchain", 10, third, 600*sec, 10*sec, 0, one,
+			InjectJ{Height: HeightJ{0, 5}, Iter: true})
+		s.update("adjacent", "testchain", 11, 20*sec, one, one, one, hh(0, 10), 30*sec)
+		out = append(out, s.run.res)
+		// the earliest iteration key belongs to a LOWER revision: pruned first
+		s = e.scenario(100014, "prune-across-revisions", "gaia-2", 10, third, 300*sec, 10*sec, 0, one,
+			InjectJ{Height: HeightJ{1, 4000000000000}, Cons: true, Time: t0 - 100*sec, Root: root, NVH: nvh, PT: pt, Iter: true})
+		s.update("11-nothing-expired", "gaia-2", 11, 20*sec, one, one, one, hh(2, 10), 30*sec)
+		s.update("12-prunes-revision-1", "gaia-2", 12, 25*sec, one, one, one, hh(2, 11), 200*sec)
+		s.update("13-prunes-10", "gaia-2", 13, 290*sec, one, one, one, hh(2, 12), 300*sec)
+		out = append(out, s.run.res)
+	}
 	_ = tmclient.DefaultTrustLevel
 	return out
+}
+
+func sdkUint64(x uint64) []byte {
+	b := make([]byte, 8)
+	binary.BigEndian.PutUint64(b, x)
+	return b
 }
